@@ -961,3 +961,7 @@ Proof.
   cbn [skip_value]. change (MAX_NESTING <=? 0) with false. cbv iota.
   exists (with_bool d false (d_boolv d)). split; [destruct Htc as [-> | ->]; reflexivity|]. unfold at_. simpl. auto.
 Qed.
+
+Theorem zigzag_roundtrip_both : forall z, in_range 64 z ->
+  zigzag_encode64 z = zz z /\ zigzag_decode64 (zigzag_encode64 z) = z.
+Proof. intros z R. split; [apply zigzag_encode64_spec | apply zigzag_roundtrip]; exact R. Qed.
